@@ -34,6 +34,14 @@ CHECKS = {
    technique="exhaustive enumeration of all periods 1..64 x sizes x settings and of adversarial contents x size ladders on the real Writer; the bounds of the statement as oracle",
    text="Expansion bound n+n/32+256 for five adversarial content kinds at every size of the dense and threshold ladders; effectiveness bound n/32+1200 for EVERY period 1..64, three pattern contents, five sizes >= 64 KiB, levels 1,2,-1, both windows; every runnable acceleration level.",
    note="Bounds are those of the statement; n <= 400000."),
+ "C02": dict(cat="model_checking", design="§5 C02",
+   technique="bounded exhaustive enumeration of valid DEFLATE streams from a block-level grammar (code-shape catalogue x header encodings x all symbol sequences up to a length x tails) x Read-size policies on the real Reader, differential against compress/flate",
+   text="Streams are synthesised block by block: every literal/length shape (flat, 1..15-bit skews, two codes, EOB only, all length symbols, clusters of 13-15-bit codes) x every distance shape (none, single code 0 / 29, two, flat, skewed to 15 bits, clustered >10 bits) x three header run-length encodings x every symbol sequence up to length 2-3 over a per-code alphabet, bare / padded so the AVX2 loop runs / after a 64 KiB prefix; stored blocks at all 8 bit offsets; ordered pairs of shapes in consecutive blocks (table reuse); 2000 tiny blocks; encoder-made streams; a sweep of every match length x first/last distance of every distance symbol. For each stream compress/flate accepts, fastgo must return the same bytes, then io.EOF, again io.EOF, under six Read-size policies, at every acceleration level.",
+   note="Trusted: compress/flate as the definition of the expected result; the reference inflater is cross-checked against it on every execution."),
+ "C03": dict(cat="model_checking", design="§5 C03",
+   technique="small-scope exhaustive input enumeration (all inputs up to 2-3 bytes; all bit continuations up to 11-15 bits after every catalogue header incl. incomplete codes; every single-fault mutation, truncation and bit flip of a corpus) on the real Reader, judged against a permissive reference inflater (upper bound) and compress/flate (lower bound)",
+   text="No panic, termination (livelock counter), io.EOF only where the reference finds a complete stream, every byte handed out is the reference's byte at that position, truncated valid stream => io.ErrUnexpectedEOF, defect with >=512 bytes after it => CorruptInputError, first error sticky. Enumerated: all 65793 inputs of <=2 bytes (16.8M of <=3 in thorough); for 58 code pairs x 2 block positions x bare/padded every continuation bit string; header-run faults at every boundary position; the fault catalogue; every cut and bit flip of ~35 short streams; fresh and reused Readers; every acceleration level.",
+   note="Trusted: the reference inflater (permissive about unused incomplete codes) as arbiter of well-formedness; 'no hang' by livelock counter and worker timeout."),
 }
 NOT_YET = {
 }
